@@ -40,6 +40,15 @@ BASES = {
         'AUTOMATIC TAGS',
         [('A', 'SEQUENCE { n N (2..5), s S (SIZE(1..2)), l L }'),
          ('N', 'INTEGER (0..10)'), ('S', 'IA5String (FROM("a".."d"))'), ('L', 'SEQUENCE (SIZE(0..2)) OF N')]),
+    'alias-choice': (
+        'IMPLICIT TAGS',
+        [('A', 'SEQUENCE { a [0] Alias, b [1] INTEGER (0..7), c [2] Alias2 OPTIONAL }'), ('Alias', 'Inner'),
+         ('Alias2', 'Alias'), ('Inner', 'CHOICE { u BOOLEAN, v INTEGER (0..7) }')]),
+    'shared-size': (
+        '',
+        [('A', 'SEQUENCE { x Fixed, y Free, z Ranged }'), ('Fixed', 'SEQUENCE { data T (SIZE (2)), n N (1..2) }'),
+         ('Free', 'SEQUENCE { data T, n N }'), ('Ranged', 'SEQUENCE { data T (SIZE (0..1)), n N (0..1) }'),
+         ('T', 'OCTET STRING'), ('N', 'INTEGER')]),
     'chain': (
         'AUTOMATIC TAGS',
         [('A', 'SEQUENCE { r R1, k INTEGER (0..3) }'), ('R1', 'R2'), ('R2', 'R3 (1..6)'), ('R3', 'INTEGER (0..7, ...)')]),
@@ -66,6 +75,12 @@ def arrangements(base):
                                  extra=render(tags, moved, module='U'))
     out['split-import-modules-reversed'] = render(tags, moved, module='U') + \
         render(tags, [a for a in asg if a[0] == 'A'], imports={'U': [n for n, _ in moved]})
+    # import only what A itself mentions (the other definitions stay private to module U)
+    a_rhs = dict(asg)['A']
+    direct = [n for n, _ in moved if re.search(r'(?<![\w-])%s(?![\w-])' % re.escape(n), a_rhs)]
+    if direct and len(direct) < len(moved):
+        out['split-import-minimal'] = render(tags, [a for a in asg if a[0] == 'A'], imports={'U': direct},
+                                             extra=render(tags, moved, module='U'))
     # inline each referenced type (one at a time, and all at once)
     rhs = dict(asg)
 
